@@ -117,7 +117,10 @@ def _case(draw):
             "eig_tol": draw(st.sampled_from([None, None, 1e-5, 1e-6])),
             # a model declared linear=True solved with the explicit override solve_steady(linear=False): the
             # nonlinear solver (and with it the plan) must be used
-            "linear_override": draw(st.sampled_from([False, False, True]))}
+            "linear_override": draw(st.sampled_from([False, False, True])),
+            # history: a rough pass (equality tolerance 1e-3) on the same object, then reset_tolerance() and the solve
+            # that is judged - the tolerance of the first pass must not stick (to the object or to the process)
+            "rough_first": draw(st.sampled_from([False, False, False, True]))}
 
 
 def _classify(case):
@@ -125,6 +128,8 @@ def _classify(case):
     extra_ = []
     if case.get("eig_tol"):
         extra_.append("eigenvalue_tolerance_loosened")
+    if case.get("rough_first"):
+        extra_.append("rough_pass_first")
     if case.get("linear_override") and not (spec["log"] or lm.nl_terms(spec)):
         extra_.append("declared_linear_solved_nonlinear")
     labels = [f"family_{case['family']}", f"plan_{case['plan']}", f"variants_{case['nv']}",
@@ -297,6 +302,18 @@ def _check(case):
         kwargs["flat"] = True
     if lin_override:
         kwargs["linear"] = False
+    if case.get("rough_first") and not linear:
+        try:
+            m.override_tolerance(equality=1e-3)
+            m.solve_steady(**kwargs)
+        except Exception:  # noqa: BLE001 - only the final solve is judged
+            pass
+        finally:
+            m.reset_tolerance()
+            if case.get("eig_tol"):
+                m.override_tolerance(eigenvalue=case["eig_tol"])
+        # the judged solve starts again from the drawn guess (and the assigned plan values)
+        api("assign_guess_again", lambda: m.assign(**{k_: v_ for k_, v_ in guess.items() if k_ not in fixed and k_ not in fixed_changes}))
     try:
         m.solve_steady(**kwargs)
     except Exception as exc:  # noqa: BLE001 - the property is conditional on completion
@@ -421,6 +438,87 @@ def _check(case):
     return {"labels": ["completed"], "nontrivial": nontrivial}
 
 
+# ---------------------------------------------------------------------------
+# A fresh interpreter per case: what the first solve of a process leaves behind
+# ---------------------------------------------------------------------------
+
+_FRESH_SCRIPT = r"""
+import sys, json, io, contextlib, warnings
+warnings.filterwarnings("ignore")
+sys.path.insert(0, sys.argv[1])
+import irispie as ir
+job = json.loads(sys.stdin.read())
+out = {}
+with contextlib.redirect_stdout(io.StringIO()):
+    m = ir.Simultaneous.from_string(job["source"], linear=False, flat=job["flat"])
+    m.assign(**job["params"]); m.assign(**job["guess"])
+    try:
+        m.override_tolerance(equality=1e-3); m.solve_steady()
+    except Exception:
+        pass
+    m.reset_tolerance()
+    m.assign(**job["guess"])
+    try:
+        m.solve_steady()
+        out["levels"] = {k: float(v) for k, v in m.get_steady_levels().items()}
+        out["changes"] = {k: (None if v is None else float(v)) for k, v in m.get_steady_changes().items()}
+    except Exception as exc:
+        out["error"] = type(exc).__name__
+print("RESULT" + json.dumps(out))
+"""
+
+
+@st.composite
+def _fresh_case(draw):
+    case = draw(_case())
+    case["plan"], case["nv"] = "none", 1
+    for p_ in case["spec"]["params"]:
+        if isinstance(p_["value"], list):
+            p_["value"] = p_["value"][0]
+    return case
+
+
+def _check_fresh(case):
+    """The judged solve is the second of a fresh interpreter, after a rough pass and reset_tolerance()."""
+    import json as _json
+    import os as _os
+    import subprocess as _sp
+    col = Collector()
+    spec, rw = case["spec"], case["rw"]
+    if not (spec["log"] or lm.nl_terms(spec)):
+        return {"labels": ["linear_solver_not_concerned"], "nontrivial": False}
+    sv = _spec_for_variant(spec, 0)
+    if not _stable_part_ok(sv, rw, v=None) or (rw is None and lm.steady(sv)[0] is None):
+        return {"labels": ["model_not_in_domain"], "nontrivial": False}
+    f = math.exp if spec["log"] else float
+    xs, _ = _known_steady(sv, rw)
+    guess = {nm: f((float(xs[j]) if xs is not None else 0.0) * (1 + case["perturb"][j]) + (0.05 * case["perturb"][j] if xs is None or xs[j] == 0 else 0.0))
+             for j, nm in enumerate(spec["names"])}
+    job = {"source": lm.source(spec), "flat": bool(case["flat"]), "params": {p_["name"]: p_["value"] for p_ in spec["params"]}, "guess": guess}
+    src_dir = _os.environ.get("IRISPIE_SRC", "/repo/src")
+    r = _sp.run(["/venv/bin/python", "-c", _FRESH_SCRIPT, src_dir], input=_json.dumps(job), capture_output=True, text=True, timeout=300,
+                env=dict(_os.environ, OMP_NUM_THREADS="1", OPENBLAS_NUM_THREADS="1"))
+    line = next((ln for ln in r.stdout.splitlines() if ln.startswith("RESULT")), None)
+    if line is None:
+        raise RuntimeError("fresh interpreter produced no result: " + (r.stderr or r.stdout)[-800:])
+    res = _json.loads(line[len("RESULT"):])
+    if "error" in res:
+        return {"labels": [f"not_converged:{res['error']}"], "nontrivial": False}
+    names = spec["names"] + lm.meas_names(spec)
+    lv = {nm: res["levels"].get(nm) for nm in names}
+    ch = {nm: res["changes"].get(nm) for nm in names}
+    if any(x is None or math.isnan(x) for x in lv.values()):
+        return {"labels": ["missing_level"], "nontrivial": False}
+    if spec["log"] and (any(not (1e-6 < x < 1e6) for x in lv.values()) or any(x is not None and not math.isnan(x) and not (1e-3 < x < 1e3) for x in ch.values())):
+        return {"labels": ["degenerate_near_zero_solution"], "nontrivial": False}
+    neutral_ = 1.0 if spec["log"] else 0.0
+    spurious = rw is None and not case["flat"] and any(x is not None and not math.isnan(x) and abs(x - neutral_) > 1e-9 for x in ch.values())
+    _residual_check(col, sv, lv, ch, "fresh_process:residual" + (SPURIOUS if spurious else ""), "(second solve of a fresh interpreter, after a rough pass and reset_tolerance())")
+    col.done()
+    return {"labels": ["judged"], "nontrivial": True}
+
+
 SUBCHECKS = [
     HypSub("steady", _case, _check, _classify, budget={"quick": 800, "thorough": 40000}),
+    HypSub("fresh_process", _fresh_case, _check_fresh, _classify, budget={"quick": 48, "thorough": 640}),
 ]
